@@ -446,6 +446,90 @@ def oracleHist {V} (dim : Nat) (dim3 : Bool) (m : RawMesh V) (ops : List (RawOp 
     | _ :: _, [] => "fail more-segments-than-ops"
   go segs names 0 "" 0
 
+/-! ## `contains3`: the inside test of a closed, outward-oriented mesh against the exact crossing parity -/
+
+/-- final state of the model after the history (no dump) -/
+def finalState {V N} [Geo V N] (dim3 : Bool) (m : RawMesh V) (ops : List (RawOp V)) : Option (Mesh V N) :=
+  match withFlags (N := N) dim3 m.vs m.idx (Flags.ofNat m.flags) with
+  | .ok s => ops.foldlM (fun s op => match op with
+      | .sf f => (setFlags dim3 s (Flags.ofNat f)).map (·.1)
+      | .rev => reverse dim3 s
+      | .app r => match withFlags (N := N) dim3 r.vs r.idx (Flags.ofNat r.flags) with
+        | .ok rhs => append dim3 s rhs
+        | _ => some s) s
+  | _ => none
+
+inductive Hit where
+  | miss
+  | hit
+  | degenerate
+
+/-- exact Möller–Trumbore: does the open ray `p + t d` (`t > 0`) cross the open triangle; `degenerate` when it meets the
+boundary of the triangle or lies in its plane -/
+def rayTri (p d a b c : V3 Rat) : Hit :=
+  let e1 := b.sub a; let e2 := c.sub a
+  let h := d.cross e2
+  let det := e1.dot h
+  let s := p.sub a
+  if det = 0 then
+    -- parallel: degenerate only if the ray lies in the plane of the triangle
+    if (e1.cross e2).dot s = 0 then .degenerate else .miss
+  else
+    let u := s.dot h / det
+    let qv := s.cross e1
+    let v := d.dot qv / det
+    let t := e2.dot qv / det
+    if t < 0 then .miss else
+    if u < 0 ∨ v < 0 ∨ u + v > 1 then .miss else
+    if t = 0 ∨ u = 0 ∨ v = 0 ∨ u + v = 1 then .degenerate else .hit
+
+/-- crossing parity along the first direction of `dirs` that meets no degenerate configuration -/
+def insideParity (tris : List (V3 Rat × V3 Rat × V3 Rat)) (p : V3 Rat) : List (V3 Rat) → Option Bool
+  | [] => none
+  | d :: ds =>
+    let r := tris.foldl (fun (acc : Option Nat) t => match acc with
+      | none => none
+      | some n => match rayTri p d t.1 t.2.1 t.2.2 with
+        | .miss => some n
+        | .hit => some (n + 1)
+        | .degenerate => none) (some 0)
+    match r with
+    | some n => some (n % 2 == 1)
+    | none => insideParity tris p ds
+
+def dirsA : List (V3 Rat) := [⟨3/7, 5/11, 13/17⟩, ⟨-2/9, 7/13, 11/19⟩, ⟨5/23, -9/29, 4/31⟩, ⟨-7/37, -3/41, -8/43⟩]
+def dirsB : List (V3 Rat) := [⟨-5/13, -3/17, 7/23⟩, ⟨11/29, -13/31, -2/37⟩, ⟨1/47, 6/53, -9/59⟩, ⟨-4/61, 10/67, 3/71⟩]
+
+/-- squared distance from `p` to the triangle `abc` (Ericson's closest point, exact) -/
+def distSqTri (p a b c : V3 Rat) : Rat :=
+  let ab := b.sub a; let ac := c.sub a; let ap := p.sub a
+  let d1 := ab.dot ap; let d2 := ac.dot ap
+  if d1 ≤ 0 ∧ d2 ≤ 0 then ap.normSq else
+  let bp := p.sub b
+  let d3 := ab.dot bp; let d4 := ac.dot bp
+  if d3 ≥ 0 ∧ d4 ≤ d3 then bp.normSq else
+  let vc := d1 * d4 - d3 * d2
+  if vc ≤ 0 ∧ d1 ≥ 0 ∧ d3 ≤ 0 then
+    let v := d1 / (d1 - d3); (p.sub (a.add (ab.smul v))).normSq else
+  let cp := p.sub c
+  let d5 := ab.dot cp; let d6 := ac.dot cp
+  if d6 ≥ 0 ∧ d5 ≤ d6 then cp.normSq else
+  let vb := d5 * d2 - d1 * d6
+  if vb ≤ 0 ∧ d2 ≥ 0 ∧ d6 ≤ 0 then
+    let w := d2 / (d2 - d6); (p.sub (a.add (ac.smul w))).normSq else
+  let va := d3 * d6 - d5 * d4
+  if va ≤ 0 ∧ (d4 - d3) ≥ 0 ∧ (d5 - d6) ≥ 0 then
+    let w := (d4 - d3) / ((d4 - d3) + (d5 - d6)); (p.sub (b.add ((c.sub b).smul w))).normSq else
+  let denom := 1 / (va + vb + vc)
+  let v := vb * denom; let w := vc * denom
+  (p.sub ((a.add (ab.smul v)).add (ac.smul w))).normSq
+
+def pcontains : P (RawMesh (V3 Float) × List (RawOp (V3 Float)) × List (V3 Float)) := do
+  let m ← pmesh pv3; let ops ← plist (pop pv3); let pts ← plist pv3; pend; pure (m, ops, pts)
+
+def trisOf (s : Mesh (V3 Float) (V3 Float)) : List (V3 Rat × V3 Rat × V3 Rat) :=
+  ((allCoords s.vertices s.indices).getD []).map fun c => (q3 c.1, q3 c.2.1, q3 c.2.2)
+
 def handler (fn : String) : Option Handler :=
   match fn with
   | "hist3" => some {
@@ -458,6 +542,35 @@ def handler (fn : String) : Option Handler :=
       oracle := fun a o => match run (pcase pv2) a with
         | some (m, ops) => oracleHist 2 false m ops o
         | none => "skip bad-args" }
+  | "contains3" => some {
+      -- specification as model: crossing parity (directions `dirsA`) on the model's final buffers
+      model := fun a => (run pcontains a).map fun (m, ops, pts) =>
+        match finalState (N := V3 Float) true m ops with
+        | none => "nobuild"
+        | some s =>
+          let tris := trisOf s
+          " ".intercalate (pts.map fun p => match insideParity tris (q3 p) dirsA with
+            | some true => "1" | some false => "0" | none => "?")
+      -- oracle: an independent parity (directions `dirsB`) on the input buffers; points closer than 1e-6 to the
+      -- surface are outside the property's domain
+      oracle := fun a o => match run pcontains a with
+        | none => "skip bad-args"
+        | some (m, ops, pts) =>
+          if o = ["nobuild"] then "skip nobuild" else
+          if o.length != pts.length then "fail unparsable-output" else
+          let tris : List (V3 Rat × V3 Rat × V3 Rat) :=
+            ((allCoords m.vs m.idx).getD []).map fun c => (q3 c.1, q3 c.2.1, q3 c.2.2)
+          let tol : Rat := 1 / 1000000
+          let res := (pts.zip o).map fun (p, bit) =>
+            let P := q3 p
+            if tris.any (fun t => distSqTri P t.1 t.2.1 t.2.2 < tol * tol) then (0 : Nat) else
+            match insideParity tris P dirsB with
+            | none => 0
+            | some ins => if (if ins then "1" else "0") = bit then 1 else 2
+          let _ := ops
+          match res.findIdx? (· == 2) with
+          | some k => s!"fail point {k} contains_local_point disagrees with the crossing parity"
+          | none => if res.any (· == 1) then "pass" else "skip all-points-near-surface" }
   | "hist3w" => some {
       model := fun a => (run (pcase pv3) a).map fun (m, ops) => runHist (N := V3 Float) true true m ops
       oracle := fun a o => match run (pcase pv3) a with
